@@ -21,7 +21,7 @@ func init() {
 		emit("/-- middleware/context.go `Context.Authorize`: status of `errors.New(http.StatusXxx, err.Error())` (0 = not found) -/")
 		v := 0
 		if fd := funcDecl("middleware/context.go", "Context", "Authorize"); fd != nil && fd.Body != nil {
-			ast.Inspect(fd.Body, func(n ast.Node) bool {
+			ast.Inspect(reach("middleware/context.go", fd), func(n ast.Node) bool {
 				call, ok := n.(*ast.CallExpr)
 				if !ok || len(call.Args) < 1 {
 					return true
